@@ -186,8 +186,8 @@ def k_get_capabilities(ip, args, kwargs):
     new = SDict()
     last = {}
     for k in KNOWN_CAPS:
-        ann = sym.fresh_bool("announced_" + k, register=False).t
-        val = sym.fresh_str("capvalue_" + k, False, register=False)
+        ann = sym.fresh_bool("announced_" + k).t
+        val = sym.fresh_str("capvalue_" + k, False)
         last[k] = (ann, val)
         if isinstance(old, SDict):
             e = old.entries.get(k, [False, None])
